@@ -260,14 +260,31 @@ func encStep(line string) string {
 	case "id": // id epoch lamport tailhex  (SetID path)
 		id := mkID(Atou(f[1]), Atou(f[2]), Unhex(f[3]))
 		return fmt.Sprintf("%s %d %d", HexOf(id.Bytes()), id.Epoch(), id.Lamport())
-	case "idbuild": // Build path
-		var e dag.MutableBaseEvent
+	case "idbuild": // Build path; one mutable event serves as the template of all builds
+		e := &idTemplate
 		e.SetEpoch(idx.Epoch(Atou(f[1])))
 		e.SetLamport(idx.Lamport(Atou(f[2])))
 		var t [24]byte
 		copy(t[:], Unhex(f[3]))
-		id := e.Build(t).ID()
-		return fmt.Sprintf("%s %d %d", HexOf(id.Bytes()), id.Epoch(), id.Lamport())
+		built := e.Build(t)
+		id := built.ID()
+		res := fmt.Sprintf("%s %d %d", HexOf(id.Bytes()), id.Epoch(), id.Lamport())
+		if built.Epoch() != idx.Epoch(Atou(f[1])) || built.Lamport() != idx.Lamport(Atou(f[2])) {
+			res += " BUILT-FIELDS-DIFFER"
+		}
+		// events built earlier keep what they were built with
+		for i, b := range idBuilt {
+			if fmt.Sprintf("%s %d %d", HexOf(b.ID().Bytes()), b.Epoch(), b.Lamport()) != idBuiltWas[i] {
+				res += " EARLIER-BUILT-EVENT-CHANGED"
+				break
+			}
+		}
+		if len(idBuilt) >= 4 {
+			idBuilt, idBuiltWas = idBuilt[1:], idBuiltWas[1:]
+		}
+		idBuilt = append(idBuilt, built)
+		idBuiltWas = append(idBuiltWas, fmt.Sprintf("%s %d %d", HexOf(id.Bytes()), built.Epoch(), built.Lamport()))
+		return res
 	case "idcmp":
 		a := mkID(Atou(f[1]), Atou(f[2]), Unhex(f[3]))
 		b := mkID(Atou(f[4]), Atou(f[5]), Unhex(f[6]))
@@ -275,6 +292,12 @@ func encStep(line string) string {
 	}
 	return "bad-op"
 }
+
+var (
+	idTemplate dag.MutableBaseEvent
+	idBuilt    []*dag.BaseEvent
+	idBuiltWas []string
+)
 
 func genEnc(r *Rand, n int, tier string, w *bufio.Writer) {
 	idxTypes := []string{"epoch", "event", "block", "lamport", "frame", "pack", "validatorid"}
